@@ -368,17 +368,23 @@ class Block(Entity):
             dt_arr = list(col_dict.items())
             col_dtype = np.dtype(dt_arr)
 
-        df = DataFrame.create_new(self.file, self, data_frames, name,
-                                  type_, shape, col_dtype, compression)
+        try:
+            df = DataFrame.create_new(self.file, self, data_frames, name,
+                                      type_, shape, col_dtype, compression)
 
-        if data is not None:
-            if type(data[0]) == np.void:
-                data = np.ascontiguousarray(data, dtype=col_dtype)
-                df.write_direct(data)
-            else:
-                data = list(map(tuple, data))
-                arr = np.ascontiguousarray(data, dtype=col_dtype)
-                df.write_direct(arr)
+            if data is not None:
+                if type(data[0]) == np.void:
+                    data = np.ascontiguousarray(data, dtype=col_dtype)
+                    df.write_direct(data)
+                else:
+                    data = list(map(tuple, data))
+                    arr = np.ascontiguousarray(data, dtype=col_dtype)
+                    df.write_direct(arr)
+        except Exception:
+            # do not leave a half created frame behind
+            if name in data_frames:
+                del data_frames[name]
+            raise
         return df
 
     def find_sources(self, filtr=lambda _: True, limit=None):
